@@ -76,6 +76,11 @@ def invariants(w: World, site, tag):
               info=dict(tag, mapped=sorted(mapped), in_use=sorted(ex._used_physical_qubit_addresses))),
            Ob("registered_apps_have_all_memories", set(ex._qubit_unit_modules) == set(w.registered) == set(ex._registers) ==
               set(ex._app_arrays) == set(ex._shared_memories), site, info=dict(tag, apps=sorted(w.registered)))]
+    # the host side finds an application's shared memory through the manager: every registered application must still be there, with
+    # the very object the controller writes to (another application stopping must not take it away)
+    missing = [a for a in ex._shared_memories
+               if SharedMemoryManager.get_shared_memory(node_name=ex._name, key=a) is not ex._shared_memories[a]]
+    obs.append(Ob("host_can_reach_shared_memory_of_registered_apps", not missing, site, info=dict(tag, apps_unreachable=sorted(missing))))
     return obs
 
 
